@@ -113,7 +113,10 @@ def run(P: Program, R: Report, tier: str) -> None:
 
                 rs_ = rs_ or Resolver(P, fn)
                 recv = rs_.text(n.func.value)
-                on_tracks = "tracks.graph" in recv or (recv == "self.graph" and fn.cls is not None and P.is_subclass(fn.cls.qname, "Tracks"))
+                recv_e = rs_.expand(n.func.value)
+                # a graph object that was just made (G.__class__(), nx.DiGraph(), G.copy(), G.subgraph(..).copy()) is not the solution graph
+                fresh_graph = isinstance(recv_e, ast.Call) and (call_name(recv_e) in ("copy", "DiGraph", "Graph", "__class__", "subgraph", "to_undirected", "reverse") or norm(recv_e.func).startswith("type("))
+                on_tracks = not fresh_graph and ("tracks.graph" in recv or (recv == "self.graph" and fn.cls is not None and P.is_subclass(fn.cls.qname, "Tracks")))
                 if not on_tracks:
                     continue
                 n_sites += 1
